@@ -45,7 +45,7 @@ def showOrswotReads (s : OS) : String :=
     " c" ++ toString m ++ "=" ++ showBool c.val ++ ":" ++ showCtx c)) ++
   " iter=[" ++ joinWith ";" (s.iter.map (fun c => toString c.val ++ ":" ++ showCtx c)) ++ "]" ++
   -- `ReadCtx::split` (src/ctx.rs:58-67) keeps both clocks of the read; `Orswot::clock()` (src/orswot.rs:237-239) is the set clock
-  " split=" ++ showCtx r ++ " clk=" ++ showClock s.clock
+  " split=" ++ showCtx r ++ " split0=" ++ showCtx (s.contains 0) ++ " clk=" ++ showClock s.clock
 
 def genOrswot (s : OS) (a : Nat) (args : List String) : Option OOp :=
   match args with
